@@ -871,6 +871,21 @@ theorem C09_no_panic (src : Src) (data files : Data) (hne : ∀ kv ∈ data, kv.
   · simp only [hd, if_false]
     exact bindF_no_panic src data files hne fs vs
 
+/-! ## an untagged leaf is not even looked up (round 5) -/
+
+/-- **C09_untagged_ignores_request** — for a field without a tag for the source that the walk does
+    not descend into (every scalar, pointer, slice, map, interface, unmarshaler, file field, nil or
+    non-embedded pointer to struct), the step does not depend on the request at all: whatever keys
+    (the key of length 0 included), values and uploads are sent, it returns the field as it was,
+    without error.  The lookup is never made with an empty name. -/
+theorem C09_untagged_ignores_request (src : Src) (data files : Data) (m : FMeta) (s : Shape) (v : Val)
+    (ht : m.tags.get src = []) (hd : descends s v = false) :
+    bindS src data files m s v = (v, none) := by
+  cases s <;> cases v <;> simp only [descends] at hd <;> try (exact absurd hd (by decide))
+  all_goals
+    unfold bindS
+    simp [ht]
+
 /-! ## uploaded files and multi-value destinations (round 4) -/
 
 theorem bindS_file (src : Src) (data files : Data) (m : FMeta) (k : FileKind) (v : Val)
@@ -1311,5 +1326,12 @@ example : ¬ decoded (exMapReq ['P','O','S','T']) := by
 example : (bind (.map .str) (.map false exMapInit) { exMapReq ['P','O','S','T'] with queryOK := false }).2 = .bad
     ∧ mapGet (mapOf (bind (.map .str) (.map false exMapInit) { exMapReq ['P','O','S','T'] with queryOK := false }).1) ['f'] = none := by
   decide +kernel
+
+-- round 5: the client sends the key of length 0 (`?=admin`, body `=admin`): nothing is bound —
+-- neither the untagged `IsAdmin`, nor the tagged fields (their tags are not empty)
+example : flatVs (bindF .query [([], [['a','d','m','i','n']]), ([], [['1']])] [] exFs exVs).1 = flatVs exVs
+    ∧ (bindF .query [([], [['a','d','m','i','n']])] [] exFs exVs).2 = none := by decide +kernel
+-- `lookup` WOULD find the empty key if it were asked for the empty name — the walk never asks
+example : lookup [([], [['x']])] [] = some [['x']] := by decide
 
 end C09
